@@ -527,10 +527,10 @@ Proof.
   apply (cond_exact d cd r (all_descrs_valid d Hd) Hb Hs).
 Qed.
 
-(* bytes[] / string[]: the handler raises NotImplementedError on every calldata *)
-Lemma bytes_array_not_implemented : forall d cd,
+(* bytes[] / string[]: the handler raises, on every calldata, the class the source names *)
+Lemma bytes_array_raises : forall d cd,
   In d all_descrs -> is_dyn (d_ty d) = true -> d_arr d = true ->
-  exists h, mk_assert_handler (render d) = Some h /\ run_handler h cd = RNotImplemented.
+  exists h, mk_assert_handler (render d) = Some h /\ run_handler h cd = RRaise unsupported_class.
 Proof.
   intros d cd Hd Hy Ha. exists (expected_handler d). split; [apply handler_of_render, Hd|].
   pose proof (all_descrs_valid d Hd) as Hv.
